@@ -1,4 +1,10 @@
-// Package vcoop: controlled cooperative scheduler (prototype).
+// Package vcoop is a controlled cooperative scheduler for the goroutines, atomics and WaitGroups
+// of kanzi-go's CompressedStream.go (instrumented copy, see /verif/tools/instrument).
+//
+// Exactly one controlled thread runs at a time. Before every synchronisation operation the
+// running thread publishes the operation and lets the scheduler pick who runs next, according to
+// a choice sequence supplied by the explorer. Outside an exploration (no active scheduler) every
+// entry point is a pass-through to the real sync / sync/atomic / runtime implementation.
 package vcoop
 
 import (
@@ -16,16 +22,23 @@ const (
 	OpStore
 	OpCAS
 	OpSwap
+	OpAdd
 	OpWgDone
 	OpWgWait
 	OpStream
 	OpFault
 	OpExit
+	OpLock
+	OpUnlock
+	OpRLock
+	OpRUnlock
 )
 
-var kindNames = []string{"start", "load", "store", "cas", "swap", "wgdone", "wgwait", "stream", "fault", "exit"}
+var kindNames = []string{"start", "load", "store", "cas", "swap", "add", "wgdone", "wgwait", "stream", "fault", "exit", "lock", "unlock", "rlock", "runlock"}
 
 func (k OpKind) String() string { return kindNames[k] }
+
+func (k OpKind) isWrite() bool { return k == OpStore || k == OpCAS || k == OpSwap || k == OpAdd }
 
 type Thread struct {
 	ID       int
@@ -38,8 +51,9 @@ type Thread struct {
 	lastSite uintptr
 	lastEp   uint64
 	respins  int
-	Phase    string
 }
+
+func (t *Thread) Done() bool { return t.done }
 
 type PendOp struct {
 	Thread int
@@ -53,10 +67,12 @@ type PointRec struct {
 	RunningEnabled bool
 	Thread         int
 	Kind           OpKind
-	Pend           []PendOp     // pending ops of the enabled threads, canonical order
-	SleepBefore    map[int]bool // threads asleep at this state
+	Pend           []PendOp     // pending ops of the enabled threads, canonical order (sleep mode only)
+	SleepBefore    map[int]bool // threads asleep at this state (sleep mode only)
+	StateHash      uint64       // abstract protocol state before the choice
 }
 
+// Independent is the (conservative) independence relation used by the sleep-set reduction.
 func Independent(a, b PendOp) bool {
 	if a.Thread == b.Thread {
 		return false
@@ -72,23 +88,40 @@ func Independent(a, b PendOp) bool {
 
 type Abort struct{ Reason string }
 
+// Event is what the monitor of an execution sees (after the operation took effect).
+type Event struct {
+	Thread int
+	Kind   OpKind
+	Obj    unsafe.Pointer
+	Val    int64  // value loaded / stored / new value
+	OK     bool   // CAS success
+	Detail string // stream op name, fault site
+}
+
 type Sched struct {
-	Threads  []*Thread
-	cur      *Thread
-	Prefix   []int
-	Points   []PointRec
-	epoch    map[unsafe.Pointer]uint64
-	Events   []string
-	Trace    bool
-	Aborted  *Abort
-	Faults   map[string]bool // fault keys to fire: "site#threadID"
-	Horizon  int
-	mainDone chan struct{}
-	UseSleep  bool
-	SleepInit map[int]bool // sleep set holding right after the prefix
-	sleep     map[int]bool
-	// hooks
-	OnEvent func(t *Thread, kind OpKind, obj unsafe.Pointer, detail string)
+	Threads []*Thread
+	cur     *Thread
+	Prefix  []int
+	Points  []PointRec
+	epoch   map[unsafe.Pointer]uint64
+	Aborted *Abort
+	// Fault selection: FaultThread = thread id, FaultSite = "compute" | "stream", FaultNth = n-th
+	// (0-based) stream operation of that thread.
+	FaultThread int
+	FaultSite   string
+	FaultNth    int
+	FaultFired  bool
+	streamOps   map[int]int
+	Horizon     int
+	UseSleep    bool
+	SleepInit   map[int]bool // sleep set holding right after the prefix
+	sleep       map[int]bool
+	Redundant   bool // sleep-blocked: execution continued with default choices, not to be branched
+	OnEvent     func(e Event)
+	// abstract state
+	objIdx  map[unsafe.Pointer]int
+	objVals []int64
+	Holder  int // maintained by the monitor (stream holder), part of the abstract state
 }
 
 var active *Sched
@@ -96,14 +129,14 @@ var active *Sched
 func Active() *Sched { return active }
 
 func New(prefix []int) *Sched {
-	s := &Sched{Prefix: prefix, epoch: map[unsafe.Pointer]uint64{}, Horizon: 100000, Faults: map[string]bool{}}
+	s := &Sched{Prefix: prefix, epoch: map[unsafe.Pointer]uint64{}, Horizon: 20000, FaultThread: -1, streamOps: map[int]int{}, objIdx: map[unsafe.Pointer]int{}, Holder: -1}
 	t := &Thread{ID: 0, wake: make(chan struct{}, 1)}
 	s.Threads = []*Thread{t}
 	s.cur = t
 	return s
 }
 
-// Run executes body as thread 0 under the scheduler.
+// Run executes body as thread 0 under the scheduler and returns the abort reason, if any.
 func (s *Sched) Run(body func()) (ab *Abort) {
 	active = s
 	defer func() { active = nil }()
@@ -117,12 +150,8 @@ func (s *Sched) Run(body func()) (ab *Abort) {
 		}
 	}()
 	body()
-	// let any remaining threads finish
 	s.Threads[0].done = true
-	for {
-		if !s.anyLive() {
-			break
-		}
+	for s.anyLive() {
 		s.switchFrom(s.Threads[0], true)
 	}
 	return s.Aborted
@@ -138,20 +167,73 @@ func (s *Sched) anyLive() bool {
 }
 
 func (s *Sched) Cur() *Thread { return s.cur }
+func (s *Sched) CurID() int   { return s.cur.ID }
+
+type WaitGroupState struct{ n int }
+
+type MutexState struct {
+	held    bool
+	owner   int
+	readers int
+}
 
 func (s *Sched) enabled(t *Thread) bool {
 	if t.done {
 		return false
 	}
-	if t.kind == OpWgWait {
-		return (*WaitGroupState)(t.obj).n == 0
+	switch t.kind {
+	case OpWgWait:
+		return (*WaitGroupState)(t.obj).n <= 0
+	case OpLock:
+		m := (*MutexState)(t.obj)
+		return !m.held && m.readers == 0
+	case OpRLock:
+		return !(*MutexState)(t.obj).held
 	}
 	return true
 }
 
-type WaitGroupState struct{ n int }
+func (s *Sched) setVal(obj unsafe.Pointer, v int64) {
+	i, ok := s.objIdx[obj]
+	if !ok {
+		i = len(s.objVals)
+		s.objIdx[obj] = i
+		s.objVals = append(s.objVals, 0)
+	}
+	s.objVals[i] = v
+}
 
-// point: thread t announces pending op and lets the scheduler choose who runs.
+func (s *Sched) stateHash() uint64 {
+	const prime = 1099511628211
+	h := uint64(14695981039346656037)
+	mix := func(v uint64) {
+		h ^= v
+		h *= prime
+	}
+	for _, v := range s.objVals {
+		mix(uint64(v) + 0x9E37)
+	}
+	mix(0xFFFF)
+	for _, t := range s.Threads {
+		switch {
+		case t.done:
+			mix(1)
+		default:
+			k := uint64(t.kind)<<2 | 2
+			if t.spinning {
+				k |= 1 << 12
+			}
+			if i, ok := s.objIdx[t.obj]; ok {
+				k |= uint64(i+1) << 16
+			}
+			mix(k)
+		}
+	}
+	mix(uint64(s.Holder + 7))
+	return h
+}
+
+// point: the running thread announces its pending op and lets the scheduler choose who runs.
 func (s *Sched) point(kind OpKind, obj unsafe.Pointer) {
 	t := s.cur
 	t.kind, t.obj = kind, obj
@@ -162,9 +244,7 @@ func (s *Sched) switchFrom(t *Thread, exiting bool) {
 	if len(s.Points) > s.Horizon {
 		s.abort("horizon")
 	}
-	// enabled set in canonical order
-	var en []*Thread
-	var spin []*Thread
+	var en, spin []*Thread
 	if !exiting && s.enabled(t) {
 		if t.spinning {
 			spin = append(spin, t)
@@ -185,17 +265,17 @@ func (s *Sched) switchFrom(t *Thread, exiting bool) {
 	}
 	if len(en) == 0 {
 		if len(spin) > 0 {
-			// only spinners: let them re-check; detect livelock
+			// only spinners are left: let them re-check; if nothing changes they spin forever
 			for _, x := range spin {
 				x.respins++
 				if x.respins > 3 {
-					s.abort(fmt.Sprintf("livelock: thread %d spins forever", x.ID))
+					s.abort(fmt.Sprintf("livelock: thread %d waits forever on a value nobody will change", x.ID))
 				}
 			}
 			en = spin
 			runningEnabled = false
 		} else if s.anyLive() {
-			s.abort("deadlock")
+			s.abort("deadlock: threads are blocked and none can run")
 		} else {
 			return
 		}
@@ -212,12 +292,12 @@ func (s *Sched) switchFrom(t *Thread, exiting bool) {
 	if n < len(s.Prefix) {
 		idx = s.Prefix[n]
 		if idx >= len(en) {
-			panic(fmt.Sprintf("replay divergence at point %d: choice %d of %d", n, idx, len(en)))
+			panic(fmt.Sprintf("vcoop: replay divergence at point %d: choice %d of %d enabled", n, idx, len(en)))
 		}
 		if s.UseSleep && n == len(s.Prefix)-1 {
 			s.sleep = s.SleepInit
 		}
-	} else if s.UseSleep {
+	} else if s.UseSleep && !s.Redundant {
 		sleepBefore = s.sleep
 		idx = -1
 		for i, x := range en {
@@ -227,19 +307,22 @@ func (s *Sched) switchFrom(t *Thread, exiting bool) {
 			}
 		}
 		if idx < 0 {
-			s.abort("sleep-blocked")
-		}
-		// update sleep: keep only those independent with chosen
-		ns := map[int]bool{}
-		for i, x := range en {
-			if s.sleep[x.ID] && Independent(pend[i], pend[idx]) {
-				ns[x.ID] = true
+			// every enabled thread is asleep: this execution is covered elsewhere. Finish it with
+			// default choices so that no goroutine is leaked; the explorer does not branch it.
+			s.Redundant = true
+			idx = 0
+		} else {
+			ns := map[int]bool{}
+			for i, x := range en {
+				if s.sleep[x.ID] && Independent(pend[i], pend[idx]) {
+					ns[x.ID] = true
+				}
 			}
+			s.sleep = ns
 		}
-		s.sleep = ns
 	}
 	nxt := en[idx]
-	s.Points = append(s.Points, PointRec{Enabled: len(en), Chosen: idx, RunningEnabled: runningEnabled, Thread: nxt.ID, Kind: nxt.kind, Pend: pend, SleepBefore: sleepBefore})
+	s.Points = append(s.Points, PointRec{Enabled: len(en), Chosen: idx, RunningEnabled: runningEnabled, Thread: nxt.ID, Kind: nxt.kind, Pend: pend, SleepBefore: sleepBefore, StateHash: s.stateHash()})
 	if nxt == t {
 		return
 	}
@@ -253,25 +336,25 @@ func (s *Sched) switchFrom(t *Thread, exiting bool) {
 		if t.ID == 0 {
 			panic(s.Aborted)
 		}
-		select {} // leaked on purpose
+		select {} // parked forever on purpose: the execution was aborted
 	}
 }
 
 func (s *Sched) abort(reason string) {
 	s.Aborted = &Abort{Reason: reason}
-	// wake main if parked so Run can return; other goroutines stay parked (leaked)
 	if s.cur.ID != 0 {
 		m := s.Threads[0]
 		s.cur = m
 		m.wake <- struct{}{}
-		select {} // leaked on purpose
+		select {} // parked forever on purpose
 	}
 	panic(s.Aborted)
 }
 
-func (s *Sched) note(kind OpKind, obj unsafe.Pointer, detail string) {
+func (s *Sched) note(e Event) {
 	if s.OnEvent != nil {
-		s.OnEvent(s.cur, kind, obj, detail)
+		e.Thread = s.cur.ID
+		s.OnEvent(e)
 	}
 }
 
@@ -290,10 +373,10 @@ func Go(f func()) {
 		if s.Aborted != nil {
 			return
 		}
-		s.note(OpStart, nil, "")
+		s.note(Event{Kind: OpStart})
 		f()
 		t.done = true
-		s.note(OpExit, nil, "")
+		s.note(Event{Kind: OpExit})
 		s.switchFrom(t, true)
 	}()
 }
@@ -308,111 +391,177 @@ type InjectedFault struct{ Site string }
 
 func (f *InjectedFault) Error() string { return "injected fault at " + f.Site }
 
+// FaultPoint is inserted by the instrumenter at the start of the encode/decode task bodies.
 func FaultPoint(site string) {
 	s := active
-	if s == nil {
+	if s == nil || s.FaultFired || s.FaultSite != "compute" || s.FaultThread != s.cur.ID {
 		return
 	}
-	key := fmt.Sprintf("%s#%d", site, s.cur.ID)
-	if s.Faults[key] {
-		s.note(OpFault, nil, site)
-		panic(&InjectedFault{site})
-	}
+	s.FaultFired = true
+	s.note(Event{Kind: OpFault, Detail: site})
+	panic(&InjectedFault{site})
 }
 
-// StreamOp is called by the monitored bitstream wrapper before each operation.
+// StreamOp is called by the monitored bitstream wrapper before each operation on the shared stream.
 func StreamOp(obj unsafe.Pointer, detail string) {
 	s := active
 	if s == nil {
 		return
 	}
-	s.cur.lastAddr = nil
+	t := s.cur
+	t.lastAddr = nil
 	s.point(OpStream, obj)
-	s.note(OpStream, obj, detail)
-	key := fmt.Sprintf("stream:%s#%d", detail, s.cur.ID)
-	if s.Faults[key] {
-		s.note(OpFault, obj, detail)
-		panic(&InjectedFault{key})
+	s.note(Event{Kind: OpStream, Obj: obj, Detail: detail})
+	if detail == "Close" {
+		return // a failing Close returns an error, it does not panic: not a fault placement here
+	}
+	n := s.streamOps[t.ID]
+	s.streamOps[t.ID] = n + 1
+	if !s.FaultFired && s.FaultSite == "stream" && s.FaultThread == t.ID && s.FaultNth == n {
+		s.FaultFired = true
+		s.note(Event{Kind: OpFault, Obj: obj, Detail: detail})
+		panic(&InjectedFault{fmt.Sprintf("stream op %d (%s) of thread %d", n, detail, t.ID)})
 	}
 }
 
 func callerPC() uintptr {
 	var pcs [1]uintptr
-	runtime.Callers(3, pcs[:])
+	runtime.Callers(5, pcs[:])
 	return pcs[0]
-}
-
-func LoadInt32(p *int32) int32 {
-	s := active
-	if s == nil {
-		return realatomic.LoadInt32(p)
-	}
-	t := s.cur
-	addr := unsafe.Pointer(p)
-	site := callerPC()
-	if t.ID != 0 && t.lastAddr == addr && t.lastSite == site && t.lastEp == s.epoch[addr] {
-		t.spinning = true
-	}
-	s.point(OpLoad, addr)
-	v := *p
-	t.lastAddr, t.lastSite, t.lastEp = addr, site, s.epoch[addr]
-	t.spinning = false
-	s.note(OpLoad, addr, fmt.Sprint(v))
-	return v
 }
 
 func (s *Sched) wrote(addr unsafe.Pointer) {
 	s.epoch[addr]++
 	for _, x := range s.Threads {
-		if x.spinning && x.lastAddr == addr {
+		if x.lastAddr == addr {
 			x.spinning = false
 			x.respins = 0
 		}
 	}
 }
 
+// load/store primitives on 64-bit abstract values; width handled by the callers
+
+func (s *Sched) doLoad(addr unsafe.Pointer, read func() int64) int64 {
+	t := s.cur
+	site := callerPC()
+	if t.ID != 0 && t.lastAddr == addr && t.lastSite == site && t.lastEp == s.epoch[addr] {
+		t.spinning = true
+	}
+	s.point(OpLoad, addr)
+	v := read()
+	t.lastAddr, t.lastSite, t.lastEp = addr, site, s.epoch[addr]
+	t.spinning = false
+	s.setVal(addr, v)
+	s.note(Event{Kind: OpLoad, Obj: addr, Val: v})
+	return v
+}
+
+func (s *Sched) doWrite(kind OpKind, addr unsafe.Pointer, apply func() (newv int64, changed bool, ok bool)) (int64, bool) {
+	s.cur.lastAddr = nil
+	s.point(kind, addr)
+	v, changed, ok := apply()
+	if changed {
+		s.wrote(addr)
+	}
+	s.setVal(addr, v)
+	s.note(Event{Kind: kind, Obj: addr, Val: v, OK: ok})
+	return v, ok
+}
+
+func LoadInt32(p *int32) int32 {
+	if s := active; s != nil {
+		return int32(s.doLoad(unsafe.Pointer(p), func() int64 { return int64(*p) }))
+	}
+	return realatomic.LoadInt32(p)
+}
+
 func StoreInt32(p *int32, v int32) {
-	s := active
-	if s == nil {
-		realatomic.StoreInt32(p, v)
+	if s := active; s != nil {
+		s.doWrite(OpStore, unsafe.Pointer(p), func() (int64, bool, bool) { *p = v; return int64(v), true, true })
 		return
 	}
-	s.cur.lastAddr = nil
-	s.point(OpStore, unsafe.Pointer(p))
-	*p = v
-	s.wrote(unsafe.Pointer(p))
-	s.note(OpStore, unsafe.Pointer(p), fmt.Sprint(v))
+	realatomic.StoreInt32(p, v)
 }
 
 func CompareAndSwapInt32(p *int32, old, nw int32) bool {
-	s := active
-	if s == nil {
-		return realatomic.CompareAndSwapInt32(p, old, nw)
+	if s := active; s != nil {
+		_, ok := s.doWrite(OpCAS, unsafe.Pointer(p), func() (int64, bool, bool) {
+			if *p == old {
+				*p = nw
+				return int64(nw), true, true
+			}
+			return int64(*p), false, false
+		})
+		return ok
 	}
-	s.cur.lastAddr = nil
-	s.point(OpCAS, unsafe.Pointer(p))
-	ok := *p == old
-	if ok {
-		*p = nw
-		s.wrote(unsafe.Pointer(p))
-	}
-	s.note(OpCAS, unsafe.Pointer(p), fmt.Sprint(old, "->", nw, ok))
-	return ok
+	return realatomic.CompareAndSwapInt32(p, old, nw)
 }
 
 func SwapInt32(p *int32, nw int32) int32 {
-	s := active
-	if s == nil {
-		return realatomic.SwapInt32(p, nw)
+	if s := active; s != nil {
+		var old int32
+		s.doWrite(OpSwap, unsafe.Pointer(p), func() (int64, bool, bool) { old = *p; *p = nw; return int64(nw), true, true })
+		return old
 	}
-	s.cur.lastAddr = nil
-	s.point(OpSwap, unsafe.Pointer(p))
-	old := *p
-	*p = nw
-	s.wrote(unsafe.Pointer(p))
-	s.note(OpSwap, unsafe.Pointer(p), fmt.Sprint(nw))
-	return old
+	return realatomic.SwapInt32(p, nw)
 }
+
+func AddInt32(p *int32, d int32) int32 {
+	if s := active; s != nil {
+		v, _ := s.doWrite(OpAdd, unsafe.Pointer(p), func() (int64, bool, bool) { *p += d; return int64(*p), true, true })
+		return int32(v)
+	}
+	return realatomic.AddInt32(p, d)
+}
+
+func LoadInt64(p *int64) int64 {
+	if s := active; s != nil {
+		return s.doLoad(unsafe.Pointer(p), func() int64 { return *p })
+	}
+	return realatomic.LoadInt64(p)
+}
+
+func StoreInt64(p *int64, v int64) {
+	if s := active; s != nil {
+		s.doWrite(OpStore, unsafe.Pointer(p), func() (int64, bool, bool) { *p = v; return v, true, true })
+		return
+	}
+	realatomic.StoreInt64(p, v)
+}
+
+func CompareAndSwapInt64(p *int64, old, nw int64) bool {
+	if s := active; s != nil {
+		_, ok := s.doWrite(OpCAS, unsafe.Pointer(p), func() (int64, bool, bool) {
+			if *p == old {
+				*p = nw
+				return nw, true, true
+			}
+			return *p, false, false
+		})
+		return ok
+	}
+	return realatomic.CompareAndSwapInt64(p, old, nw)
+}
+
+func SwapInt64(p *int64, nw int64) int64 {
+	if s := active; s != nil {
+		var old int64
+		s.doWrite(OpSwap, unsafe.Pointer(p), func() (int64, bool, bool) { old = *p; *p = nw; return nw, true, true })
+		return old
+	}
+	return realatomic.SwapInt64(p, nw)
+}
+
+func AddInt64(p *int64, d int64) int64 {
+	if s := active; s != nil {
+		v, _ := s.doWrite(OpAdd, unsafe.Pointer(p), func() (int64, bool, bool) { *p += d; return *p, true, true })
+		return v
+	}
+	return realatomic.AddInt64(p, d)
+}
+
+// ---- WaitGroup ----
 
 func WgAdd(w *WaitGroupState, n int) { w.n += n }
 
@@ -421,12 +570,63 @@ func WgDone(w *WaitGroupState) {
 	s.cur.lastAddr = nil
 	s.point(OpWgDone, unsafe.Pointer(w))
 	w.n--
-	s.note(OpWgDone, unsafe.Pointer(w), fmt.Sprint(w.n))
+	s.setVal(unsafe.Pointer(w), int64(w.n))
+	s.note(Event{Kind: OpWgDone, Obj: unsafe.Pointer(w), Val: int64(w.n)})
 }
 
 func WgWait(w *WaitGroupState) {
 	s := active
 	s.cur.lastAddr = nil
 	s.point(OpWgWait, unsafe.Pointer(w))
-	s.note(OpWgWait, unsafe.Pointer(w), "")
+	s.note(Event{Kind: OpWgWait, Obj: unsafe.Pointer(w)})
+}
+
+// ---- Mutex ----
+
+func MuLock(m *MutexState) {
+	s := active
+	s.cur.lastAddr = nil
+	s.point(OpLock, unsafe.Pointer(m))
+	m.held, m.owner = true, s.cur.ID
+	s.setVal(unsafe.Pointer(m), int64(s.cur.ID+1))
+	s.note(Event{Kind: OpLock, Obj: unsafe.Pointer(m)})
+}
+
+func MuTryLock(m *MutexState) bool {
+	s := active
+	s.cur.lastAddr = nil
+	s.point(OpCAS, unsafe.Pointer(m))
+	if m.held {
+		return false
+	}
+	m.held, m.owner = true, s.cur.ID
+	s.setVal(unsafe.Pointer(m), int64(s.cur.ID+1))
+	return true
+}
+
+func MuUnlock(m *MutexState) {
+	s := active
+	s.cur.lastAddr = nil
+	s.point(OpUnlock, unsafe.Pointer(m))
+	m.held = false
+	s.setVal(unsafe.Pointer(m), 0)
+	s.note(Event{Kind: OpUnlock, Obj: unsafe.Pointer(m)})
+}
+
+func MuRLock(m *MutexState) {
+	s := active
+	s.cur.lastAddr = nil
+	s.point(OpRLock, unsafe.Pointer(m))
+	m.readers++
+	s.setVal(unsafe.Pointer(m), int64(-m.readers))
+	s.note(Event{Kind: OpRLock, Obj: unsafe.Pointer(m)})
+}
+
+func MuRUnlock(m *MutexState) {
+	s := active
+	s.cur.lastAddr = nil
+	s.point(OpRUnlock, unsafe.Pointer(m))
+	m.readers--
+	s.setVal(unsafe.Pointer(m), int64(-m.readers))
+	s.note(Event{Kind: OpRUnlock, Obj: unsafe.Pointer(m)})
 }
